@@ -5,7 +5,6 @@ import (
 	"encoding/gob"
 	"fmt"
 	"time"
-	"unsafe"
 
 	"github.com/valyala/fastjson"
 )
@@ -257,10 +256,9 @@ func ToRelationship(it Item) (*Relationship, error) {
 		return i, nil
 	case Relationship:
 		return &i, nil
-	case *Object:
-		return (*Relationship)(unsafe.Pointer(i)), nil
-	case Object:
-		return (*Relationship)(unsafe.Pointer(&i)), nil
+	case *Object, Object:
+		// NOTE: a Relationship is larger than an Object, a view of one as the other would reach past its end
+		return nil, ErrorInvalidType[Relationship](it)
 	default:
 		return reflectItemToType[Relationship](it)
 	}
